@@ -1,6 +1,10 @@
 /-
 C07 — estimation returns a feasible point that is a maximum of the stated likelihood.
-Property theorems only (helper lemmas in Proofs/Estimate.lean, Proofs/EstimatePlumbing.lean).
+Property theorems only (helper lemmas in Proofs/Estimate.lean, Proofs/EstimatePlumbing.lean,
+Proofs/EstimateFlow.lean).  Round 3 (section "round 3" below, model in Model/EstimateFlow.lean): the
+`NegativeLikelihood` methods call by call, `estimate` with saved iterations (`_load_saved_iteration`,
+`bestIteration`, the life of the file through any sequence of operations), the null / initial log
+likelihood carried by a results object, `estimate_catalog`.
 
 PARTIAL BY DESIGN: the optimisers (biogeme_optimization, scipy) are external.  The optimiser is a
 parameter of the model; the only thing assumed about it is the recorded contract `OptContract`
@@ -12,6 +16,8 @@ over ℝ, that a KKT point of a concave differentiable problem is a global maxim
 import Model.Estimate
 import Proofs.Estimate
 import Proofs.EstimatePlumbing
+import Model.EstimateFlow
+import Proofs.EstimateFlow
 
 open Estimate
 
@@ -328,6 +334,188 @@ theorem driver_predicates {n : ℕ} (lb ub : Fin n → Option ℝ) (g x : Fin n 
     (inBox (List.ofFn fun i => (lb i, ub i)) (List.ofFn x) = true ↔ x ∈ Box lb ub) :=
   ⟨kktB_ofFn lb ub g x, inBox_ofFn lb ub x⟩
 
+
+/-! ### round 3: call by call, saved iterations, null log likelihood, catalogs -/
+
+/-- **`NegativeLikelihood._f/_f_g/_f_g_h`, call by call** (every number type): each method asks the
+`BIOGEME` object for the *unscaled* likelihood of the *whole* sample, never for the BHHH matrix, for the
+Hessian exactly in `_f_g_h`, through `calculate_likelihood` exactly in `_f`; and hands back the negated
+value, the negated gradient (`_f_g`, `_f_g_h`) and the negated Hessian (`_f_g_h` only, `None` otherwise). -/
+theorem neg_call_by_call {α : Type} [NumOps α] (like : Vec α → α) (ev : Vec α → Eval α) (x : Vec α) (k : NegKind) :
+    (negFlags k).scaled = false ∧ (negFlags k).bhhh = false ∧ (negFlags k).batchNone = true ∧
+    ((negFlags k).hessian = true ↔ k = .fgh) ∧ ((negFlags k).derivatives = false ↔ k = .f) ∧
+    (k = .f → (negCall like ev k x).f = negF like x ∧ (negCall like ev k x).g = none ∧ (negCall like ev k x).h = none) ∧
+    (k = .fg → (negCall like ev k x).f = (negFG ev x).1 ∧ (negCall like ev k x).g = some (vneg (ev x).g) ∧
+        (negCall like ev k x).h = none) ∧
+    (k = .fgh → (negCall like ev k x).f = (negFGH ev x).1 ∧ (negCall like ev k x).g = some (vneg (ev x).g) ∧
+        (negCall like ev k x).h = some (mneg (ev x).h)) := by
+  cases k <;> simp [negFlags, negCall, negFG, negFGH]
+
+/-- over the reals, whatever the method, the value handed to the optimiser is minus the likelihood -/
+theorem neg_call_value (like : Vec ℝ → ℝ) (ev : Vec ℝ → Eval ℝ) (hev : ∀ x, (ev x).f = like x) (x : Vec ℝ) (k : NegKind) :
+    (negCall like ev k x).f = - like x := by
+  cases k <;> simp [negCall, negFG, negFGH, negF_real, hev]
+
+/-- **`estimate` with a saved iteration present** (every number type, any bootstrap request): the
+content of the file is applied as `change_init_values` would (formulas *and* the values the estimation
+starts from), the estimation is the stateless `estimate` from those values — so its initial log
+likelihood is the likelihood of the *loaded* values —, the estimates are then written over the loaded
+values, and the null log likelihood reported is the one the object holds. -/
+theorem saved_estimate_starts_from_file {α : Type} [NumOps α] (e : EnvT α) (st : FState α)
+    (boot : Option (List (Objective α))) (vals : List (String × α)) (hs : st.save = true) (hf : st.it.file = some vals) :
+    let out := fstep e st (.estimate boot)
+    let x0 := setIdValues e.names vals st.s.idValues
+    out.2.map (·.rep) = some (estimateBoot e.obj.like e.obj.ev e.fd e.opt.toOpt e.bounds x0 boot) ∧
+    out.1.s.params = writeBack (writeBack st.s.params vals)
+      (estimates e.names (estimate e.obj.like e.obj.ev e.fd e.opt.toOpt e.bounds x0).x) ∧
+    out.1.s.idValues = x0 ∧ out.2.map (·.nullLL) = some st.nullLL := by
+  simp [fstep, hs, hf, loadSaved, step, EnvT.toEnv, estimateBoot_res]
+
+/-- without a readable file, or with `save_iterations` off, `estimate` is the base operation -/
+theorem unsaved_estimate_is_base {α : Type} [NumOps α] (e : EnvT α) (st : FState α)
+    (boot : Option (List (Objective α))) (h : st.save = false ∨ st.it.file = none) :
+    ((fstep e st (.estimate boot)).2.map (·.rep)) = (step e.toEnv st.s (.estimate boot)).2 ∧
+    (fstep e st (.estimate boot)).1.s = (step e.toEnv st.s (.estimate boot)).1 := by
+  rcases h with h | h
+  · simp [fstep, h, step]
+  · cases hsv : st.save <;> simp [fstep, h, hsv, loadSaved, step]
+
+/-- **Every results object returned during any sequence of operations of the extended object**
+(saving switched on or off at any time, files removed, evaluations with derivatives that rewrite the
+file, estimations that load it, null log likelihood computed at any time) reports the likelihood at
+its own point and the derivatives at that point (or none, for `quick_estimate`). -/
+theorem flow_reports_consistent (e : EnvT ℝ) (hev : ∀ x, (e.obj.ev x).f = e.obj.like x)
+    (st : FState ℝ) (ops : List (FOp ℝ)) :
+    ∀ r ∈ (frun e st ops).2,
+      r.rep.res.logLike = e.obj.like r.rep.res.x ∧
+      ((r.rep.res.g = some (e.obj.ev r.rep.res.x).g ∧ r.rep.res.h = some (e.obj.ev r.rep.res.x).h ∧
+          r.rep.res.bhhh = some (e.obj.ev r.rep.res.x).bhhh) ∨
+       (r.rep.res.g = none ∧ r.rep.res.h = none ∧ r.rep.res.bhhh = none)) := by
+  refine frun_forall e _ ?_ ops st
+  intro st op r h
+  obtain ⟨s, op', h'⟩ := fstep_report e st op r h
+  exact step_consistent e.toEnv hev s op' r.rep h'
+
+/-- the same under the optimiser's contract from every starting point: feasibility for a bound-aware
+algorithm; a report of `estimate` carries an initial log likelihood not above the final one -/
+theorem flow_reports_contract (e : EnvT ℝ) (aware : Bool) (hev : ∀ x, (e.obj.ev x).f = e.obj.like x)
+    (hc : ∀ x0, OptContract e.opt.toOpt aware e.obj.like e.obj.ev e.bounds x0) (st : FState ℝ) (ops : List (FOp ℝ)) :
+    ∀ r ∈ (frun e st ops).2,
+      (aware = true → inBox e.bounds r.rep.res.x = true) ∧
+      (r.rep.full = true → ∃ v, r.rep.res.initLogLike = some v ∧ v ≤ r.rep.res.logLike) := by
+  refine frun_forall e _ ?_ ops st
+  intro st op r h
+  obtain ⟨s, op', h'⟩ := fstep_report e st op r h
+  have hmem : r.rep ∈ (run e.toEnv s [op']).2 := by simp [run, h']
+  exact session_reports_contract e.toEnv aware hev hc s [op'] r.rep hmem
+
+/-- **What the file holds after an estimation** (`save_iterations` on, no bootstrap): if the returned
+point is at least as good as every point at which the optimiser asked for derivatives (and the gradient
+norm there is finite), the final evaluation rewrites the file with the estimates. -/
+theorem saved_file_holds_estimates (e : EnvT ℝ) (st : FState ℝ) (hs : st.save = true) :
+    let x0 := (if st.save then loadSaved e.names st.s st.it.file else st.s).idValues
+    let out := e.opt (negF e.obj.like) (negFG e.obj.ev) (negFGH e.obj.ev) e.bounds x0
+    gradNormFinite (e.obj.ev out.x).g = true → (∀ p ∈ out.evals, (e.obj.ev p).f ≤ (e.obj.ev out.x).f) →
+    (fstep e st (.estimate none)).1.it = { best := some (e.obj.ev out.x).f, file := some (e.names.zip out.x) } := by
+  intro x0 out hfin hbest
+  have h1 : (fstep e st (.estimate none)).1.it =
+      saveEvals e.names e.obj.ev (saveEvals e.names e.obj.ev { best := none, file := st.it.file } out.evals) [out.x] := by
+    simp [fstep, hs, bootSaves, saveEvals_append, out, x0]
+  rw [h1]
+  have hle := saveEvals_best_le e.names e.obj.ev (e.obj.ev out.x).f out.evals { best := none, file := st.it.file }
+    (by intro b hb; simp at hb) hbest
+  simpa [saveEvals] using saveEval_writes e.names _ out.x (e.obj.ev out.x).f (e.obj.ev out.x).g hfin hle
+
+/-- **A second `estimate` with `save_iterations` on starts from the estimates of the first** (unlike
+`reestimate_restarts`, the case without saving): whenever the file holds `names.zip x` for a point of
+the right dimension, the estimation that follows is the stateless one from `x`. -/
+theorem reestimate_saved_starts_from_file_point {α : Type} [NumOps α] (e : EnvT α) (st : FState α)
+    (boot : Option (List (Objective α))) (x : Vec α) (hs : st.save = true) (hf : st.it.file = some (e.names.zip x))
+    (hn : e.names.Nodup) (hx : x.length = e.names.length) (hv : st.s.idValues.length = e.names.length) :
+    (fstep e st (.estimate boot)).2.map (·.rep) =
+      some (estimateBoot e.obj.like e.obj.ev e.fd e.opt.toOpt e.bounds x boot) := by
+  have h := (saved_estimate_starts_from_file e st boot (e.names.zip x) hs hf).1
+  rw [setIdValues_zip e.names x st.s.idValues hn hx hv] at h
+  exact h
+
+
+/-- **The convergence flag does not enter the estimation flow**: two optimisers that return the same
+points (whatever they say about convergence) leave the object in the same state — in particular the
+same write-back of the estimates — and produce reports with the same point, likelihoods, derivatives
+and bootstrap rows.  A run stopped before convergence is packaged and written back like any other. -/
+theorem convergence_flag_irrelevant {α : Type} [NumOps α] (e : Env α) (s : Session α)
+    (boot : Option (List (Objective α))) (opt' : Optimizer α)
+    (h : ∀ f fg fgh b x0, (opt' f fg fgh b x0).x = (e.opt f fg fgh b x0).x) :
+    let e' : Env α := { e with opt := opt' }
+    (step e' s (.estimate boot)).1 = (step e s (.estimate boot)).1 ∧
+    (step e' s (.estimate boot)).2.map (fun r => (r.res.x, r.res.logLike, r.res.initLogLike, r.res.g, r.res.h, r.res.bhhh, r.bootstrap)) =
+      (step e s (.estimate boot)).2.map (fun r => (r.res.x, r.res.logLike, r.res.initLogLike, r.res.g, r.res.h, r.res.bhhh, r.bootstrap)) := by
+  simp [step, estimateBoot, estimate, h]
+
+/-- **Equal lower and upper bound**: a point of the box has exactly the pinned value in that coordinate
+(so for a bound-aware algorithm under its contract the estimate of a pinned parameter is the pin). -/
+theorem pinned_coordinate {n : ℕ} (lb ub : Fin n → Option ℝ) (x : Fin n → ℝ) (hx : x ∈ Box lb ub) (i : Fin n) (c : ℝ)
+    (hl : lb i = some c) (hu : ub i = some c) : x i = c :=
+  le_antisymm ((hx i).2 c hu) ((hx i).1 c hl)
+
+/-- `calculate_likelihood` leaves no trace in any state; an evaluation *with derivatives* leaves none
+when `save_iterations` is off (when it is on it may rewrite the file — see the example below) -/
+theorem flow_evaluations_trace {α : Type} [NumOps α] (e : EnvT α) (st : FState α) (ops₁ ops₂ : List (FOp α)) (x : Vec α) :
+    frun e st (ops₁ ++ FOp.like x :: ops₂) = frun e st (ops₁ ++ ops₂) ∧
+    (st.save = false → fstep e st (.evalD x) = (st, none)) :=
+  ⟨frun_append_like e x ops₂ ops₁ st, fstep_evalD_off e st x⟩
+
+/-- **null log likelihood**: the value computed is `Σ_rows log(1 / #available)` — the log likelihood of
+the model giving equal probability to the available alternatives — and it is not positive as soon as
+every row has at least one available alternative. -/
+theorem null_loglike_formula (rows : List (List ℝ)) :
+    nullLogLike rows = (rows.map fun r => Real.log (1 / r.sum)).sum ∧
+    ((∀ r ∈ rows, 1 ≤ r.sum) → nullLogLike rows ≤ 0) := by
+  constructor
+  · simp only [nullLogLike, NumR.sum_real]
+    congr 1
+    apply List.map_congr_left
+    intro r _
+    simp [NumR.sum_real, Real.log_inv]
+  · intro h
+    simp only [nullLogLike, NumR.sum_real]
+    have hsum : ∀ l : List ℝ, (∀ v ∈ l, v ≤ 0) → l.sum ≤ 0 := by
+      intro l
+      induction l with
+      | nil => intro _; simp
+      | cons a t ih =>
+        intro hl
+        have h1 := hl a List.mem_cons_self
+        have h2 := ih (fun v hv => hl v (List.mem_cons_of_mem _ hv))
+        simp only [List.sum_cons]
+        linarith
+    apply hsum
+    intro v hv
+    obtain ⟨r, hr, rfl⟩ := List.mem_map.mp hv
+    have : 0 ≤ Real.log r.sum := Real.log_nonneg (h r hr)
+    simpa [NumR.sum_real] using this
+
+/-- **`estimate_catalog`**: one results object per configuration, keyed by the configuration's
+identifier in the order of the iterator; each one is consistent *for the likelihood of its own
+configuration* at its own point, with derivatives exactly when `quick_estimate` is false. -/
+theorem catalog_consistent (quick : Bool) (boot : Config ℝ → Option (List (Objective ℝ))) (cfgs : List (Config ℝ))
+    (hev : ∀ c ∈ cfgs, ∀ x, (c.env.obj.ev x).f = c.env.obj.like x) :
+    (estimateCatalog quick boot cfgs).map (·.1) = cfgs.map (·.id) ∧
+    ∀ p ∈ estimateCatalog quick boot cfgs, ∃ c ∈ cfgs, p.1 = c.id ∧ Consistent c.env.obj p.2 ∧ p.2.full = !quick := by
+  constructor
+  · induction cfgs with
+    | nil => simp [estimateCatalog]
+    | cons c cs ih =>
+      have ih' := ih (fun c' hc' => hev c' (List.mem_cons_of_mem _ hc'))
+      unfold estimateCatalog at ih' ⊢
+      cases quick <;> simp_all [step]
+  · intro p hp
+    unfold estimateCatalog at hp
+    obtain ⟨c, hc, hpc⟩ := List.mem_filterMap.mp hp
+    obtain ⟨r, hr, rfl⟩ := Option.map_eq_some_iff.mp hpc
+    refine ⟨c, hc, rfl, step_consistent c.env (hev c hc) c.s0 _ r hr, ?_⟩
+    cases quick <;> simp [step] at hr <;> subst hr <;> simp [Report.full, estimateBoot, estimate, quickEstimate]
+
 /-! ### non-vacuity -/
 
 /-- a concave likelihood with an active lower bound: L(b) = −b², box [1, ∞): b = 1 is a KKT
@@ -382,5 +570,59 @@ starting point, an algorithm that ignores bounds) -/
 example (like : Vec ℝ → ℝ) (ev : Vec ℝ → Eval ℝ) (b : Bounds ℝ) :
     ∀ x0, OptContract (fun _ _ _ _ x => ⟨x, false⟩) false like ev b x0 :=
   fun _ => ⟨rfl, fun h => Bool.noConfusion h, le_refl _⟩
+
+/-- with `save_iterations` on, an evaluation with derivatives *does* leave a trace: from a state without
+file, evaluating at the point `[1]` (value 0, zero gradient) writes `b = 1` into the file, and the
+estimation that follows starts from 1, not from the 5 the object held -/
+example (e : EnvT ℝ) (s : Session ℝ) (hn : e.names = ["b"]) (hobj : e.obj.ev = fun _ => ⟨0, [0], [], []⟩)
+    (hid : s.idValues = [5]) :
+    let st : FState ℝ := { s := s, it := { best := none, file := none }, nullLL := none, save := true }
+    (fstep e st (.evalD [1])).1.it.file = some [("b", 1)] ∧
+    (fstep e (fstep e st (.evalD [1])).1 (.estimate none)).1.s.idValues = [1] := by
+  have hfin : gradNormFinite ([0] : Vec ℝ) = true := by
+    have h0 : (0 : ℝ) ≤ NumOps.ofScientific 17976931348623157 false 292 := by
+      show (0 : ℝ) ≤ (OfScientific.ofScientific 17976931348623157 false 292 : ℝ)
+      norm_num
+    simp [gradNormFinite, isFinite, NumR.sum_real, h0]
+  have h1 : (fstep e { s := s, it := { best := none, file := none }, nullLL := none, save := true } (.evalD [1])).1.it
+      = { best := some 0, file := some [("b", 1)] } := by
+    simp only [fstep, if_true, hobj, hn]
+    rw [saveEval_writes _ _ _ _ _ hfin (by intro b hb; simp at hb)]
+    rfl
+  refine ⟨by rw [h1], ?_⟩
+  have hs : (fstep e { s := s, it := { best := none, file := none }, nullLL := none, save := true } (.evalD [1])).1.save = true := by
+    simp [fstep]
+  have hss : (fstep e { s := s, it := { best := none, file := none }, nullLL := none, save := true } (.evalD [1])).1.s = s := by
+    simp [fstep]
+  have h2 := (saved_estimate_starts_from_file e _ none [("b", 1)] hs (by rw [h1])).2.2.1
+  rw [h2, hss, hid, hn]
+  simp [setIdValues, List.lookup]
+
+/-- the null log likelihood of three rows with 3, 2 and 3 available alternatives -/
+example : nullLogLike ([[1, 1, 1], [1, 0, 1], [1, 1, 1]] : List (List ℝ)) = Real.log (1 / 3) + (Real.log (1 / 2) + Real.log (1 / 3)) := by
+  rw [(null_loglike_formula _).1]
+  norm_num [List.sum_cons]
+  simp only [← Real.log_inv]
+  norm_num
+
+/-- a catalog of two configurations estimated with `quick_estimate=False`: two results, in order -/
+example (c₁ c₂ : Config ℝ) (boot : Config ℝ → Option (List (Objective ℝ))) :
+    (estimateCatalog false boot [c₁, c₂]).map (·.1) = [c₁.id, c₂.id] := by
+  simp [estimateCatalog, step]
+
+/-- the three methods of `NegativeLikelihood` at a point of a concrete likelihood -/
+example : ((negCall (fun _ => (2 : ℝ)) (fun _ => ⟨2, [3], [[4]], [[9]]⟩) .fgh []).g,
+           (negCall (fun _ => (2 : ℝ)) (fun _ => ⟨2, [3], [[4]], [[9]]⟩) .fg []).h) = (some [-3], none) := by
+  simp [negCall, negFGH, negFG, vneg]
+
+/-- a pinned parameter: in the box `[2, 2] × (-∞, ∞)` the first coordinate of every point is 2 -/
+example (x : Fin 2 → ℝ) (hx : x ∈ Box (fun i : Fin 2 => if i = 0 then some (2 : ℝ) else none) (fun i => if i = 0 then some 2 else none)) :
+    x 0 = 2 :=
+  pinned_coordinate _ _ x hx 0 2 (by simp) (by simp)
+
+/-- two optimisers returning the start, one claiming convergence, the other not: same state afterwards -/
+example (e : Env ℝ) (s : Session ℝ) (he : e.opt = fun _ _ _ _ x => ⟨x, false⟩) :
+    (step { e with opt := fun _ _ _ _ x => ⟨x, true⟩ } s (.estimate none)).1 = (step e s (.estimate none)).1 :=
+  (convergence_flag_irrelevant e s none (fun _ _ _ _ x => ⟨x, true⟩) (by intro f fg fgh b x0; rw [he])).1
 
 end C07
